@@ -67,7 +67,8 @@ def feats(lib):
 def run(chk):
     W, tlc = chk.workdir, chk.tlc
     cfg = os.path.join(W, "rawproto.cfg")
-    open(cfg, "w").write("SPECIFICATION Spec\nINVARIANTS OrderIsValid Emit\nCHECK_DEADLOCK FALSE\n")
+    nrand = 2000 if chk.tier == "thorough" else 40
+    open(cfg, "w").write(f"SPECIFICATION Spec\nCONSTANT NRand = {nrand}\nINVARIANTS OrderIsValid Emit\nCHECK_DEADLOCK FALSE\n")
     r = tlc.check(os.path.join(D, "MC_RawProto.tla"), cfg, timeout=3600)
     chk.add_tlc("MC_RawProto DAGs, shapes, instances, abstracts, units", r)
     chk.tlc_must_pass("MC_RawProto", r)
@@ -161,7 +162,7 @@ def run(chk):
                 "spec_message_cell0": cases[k]["proto"]["cells"][0], "export": res[k]["export"]["outcome"]})
     # ---- the layer registry behind "layer/purpose numbers" (specs/raw/Layers.tla)
     from . import layersreg
-    nreg = layersreg.stage(chk, 4 if chk.tier == "thorough" else 3)
+    nreg = layersreg.stage(chk, 3)
     chk.cov["distinct_nontrivial"] = len(cases) + nreg
     return chk.finish(
         "model_checking",
